@@ -264,6 +264,7 @@ type BytecodeCompiler struct {
 	scopes                bytecodeScopes
 	loopJumpSets          []*bytecodeLoopJumpSet
 	offsetValueIds        []int // ids of integers in the value pool that represent bytecode offsets
+	pendingCalls          []*bytecodeCall
 	secondToLastOpCode    bytecode.OpCode
 	lastOpCode            bytecode.OpCode
 	parent                *BytecodeCompiler
@@ -679,13 +680,13 @@ func (c *BytecodeCompiler) optimiseCalls() {
 
 			if method != nil {
 				c.patchOptimisedCall(call, method)
-				return
+				continue
 			}
 		}
 
 		method := c.checker.GetMethod(call.receiverType, name, nil)
 		if method == nil {
-			return
+			continue
 		}
 
 		c.patchOptimisedCall(call, method.Body)
@@ -1137,6 +1138,10 @@ func (c *BytecodeCompiler) prepLocals() {
 	for _, id := range c.offsetValueIds {
 		currentValue := c.bytecode.Values[id].MustSmallInt()
 		c.bytecode.Values[id] = (currentValue + value.SmallInt(len(newInstructions))).ToValue()
+	}
+
+	for _, call := range c.pendingCalls {
+		call.bytecodeOffset += newBytes
 	}
 }
 
@@ -9222,17 +9227,17 @@ func (c *BytecodeCompiler) compileOptimisedCallMethod(receiverType types.Type, n
 			tailCall,
 		)
 
-		c.globalData.callsToOptimise.Push(
-			newBytecodeCall(
-				name,
-				c.bytecode,
-				offset,
-				receiverNamespace,
-				argCount,
-				callSiteIndex,
-				tailCall,
-			),
+		pendingCall := newBytecodeCall(
+			name,
+			c.bytecode,
+			offset,
+			receiverNamespace,
+			argCount,
+			callSiteIndex,
+			tailCall,
 		)
+		c.pendingCalls = append(c.pendingCalls, pendingCall)
+		c.globalData.callsToOptimise.Push(pendingCall)
 		return
 	}
 
@@ -9256,17 +9261,17 @@ func (c *BytecodeCompiler) compileOptimisedCallMethod(receiverType types.Type, n
 			tailCall,
 		)
 
-		c.globalData.callsToOptimise.Push(
-			newBytecodeCall(
-				name,
-				c.bytecode,
-				offset,
-				receiverNamespace,
-				argCount,
-				callSiteIndex,
-				tailCall,
-			),
+		pendingCall := newBytecodeCall(
+			name,
+			c.bytecode,
+			offset,
+			receiverNamespace,
+			argCount,
+			callSiteIndex,
+			tailCall,
 		)
+		c.pendingCalls = append(c.pendingCalls, pendingCall)
+		c.globalData.callsToOptimise.Push(pendingCall)
 	default:
 		c.emitCallMethod(
 			vm.NewCallSiteInfo(name, argCount),
